@@ -121,10 +121,32 @@ pub fn big_history_strategy() -> impl Strategy<Value = Vec<Op>> {
     prop::collection::vec(big_op_strategy(), 2..14)
 }
 
+/// One or two batches carrying 8-20 MiB each (blocks of 0.5-5 MiB), surrounded by small operations:
+/// the data of one call spans many megabytes, whatever slices or buffers the data path uses.
+pub fn huge_batch_history_strategy() -> impl Strategy<Value = Vec<Op>> {
+    let huge = (prop::collection::vec((prop_oneof![Just(1u32 << 19), Just((1 << 20) + 1), Just(2 << 20), Just((3 << 20) - 1), Just(4 << 20), Just((4 << 20) + 1), Just(5 << 20)], any::<u8>()), 2..9), any::<u8>()).prop_map(
+        |(mut v, extra)| {
+            // make sure the batch carries more than 8 MiB (at least three 4 MiB slices)
+            let mut total: u64 = v.iter().map(|(l, _)| *l as u64).sum();
+            while total <= (9 << 20) {
+                v.push(((3 << 20) + extra as u32, extra));
+                total += (3 << 20) + extra as u64;
+            }
+            Op::Batch(v.into_iter().map(|(len, fill)| Blk { len, fill }).collect())
+        },
+    );
+    (prop::collection::vec(op_strategy(), 0..4), huge, prop::collection::vec(op_strategy(), 0..4)).prop_map(|(mut a, h, mut b)| {
+        a.push(h);
+        a.append(&mut b);
+        a.push(Op::Reopen);
+        a
+    })
+}
+
 pub fn run(ctx: &Ctx) {
     ctx.set_rule(
         "cases = operation histories over {append, batch 0..8, clear, get, has, info, reopen} run against the list model \
-         (bounded-exhaustive over an 8-symbol alphabet, then seeded-random, then 'big' histories crossing 8192/32768/65536 blocks). \
+         (bounded-exhaustive over an 8-symbol alphabet, then seeded-random, then 'big' histories crossing 8192/32768/65536 blocks, then histories with one batch of 9-25 MiB). \
          Non-trivial = the history contains a reopen while >=1 mutating call is persisted only as an oplog entry \
          (no header write since it, known from the storage journal), or a clear followed by an append and then a reopen. \
          distinct = distinct op sequences (hash of the sequence).",
@@ -145,6 +167,12 @@ pub fn run(ctx: &Ctx) {
     });
     random_stage(ctx, "big", ctx.tier.pick(160, 3_000), big_history_strategy, |ops: &Vec<Op>, local| {
         run_history(ops, ObsPolicy::Scaled, false, local)
+    });
+    random_stage(ctx, "huge-batches", ctx.tier.pick(24, 300), huge_batch_history_strategy, |ops: &Vec<Op>, local| {
+        if ops.iter().any(|o| matches!(o, Op::Batch(b) if b.iter().map(|x| x.len as u64).sum::<u64>() > (8 << 20))) {
+            local.class("with_a_batch_of_more_than_8_mib");
+        }
+        run_history(ops, ObsPolicy::Windowed, false, local)
     });
     random_stage(ctx, "page-clears", ctx.tier.pick(64, 1_200), page_clear_history_strategy, |ops: &Vec<Op>, local| {
         run_history(ops, ObsPolicy::Scaled, false, local)
